@@ -639,3 +639,16 @@ def r13(ctx, R):
             R.check(repo.is_subclass(owner, mpi), f'{ci.name}.{m} :: resolves to the node-parallel implementation', w, f'an implementation from the SweeperMPI lineage ({", ".join(c.name for c in lineage if m in c.methods)})', f'{owner.name}.{m} (bases in the order {[getattr(b, "name", str(b)) for b in ci.bases]})')
     if n < 12:
         raise AnalysisError(f'C08.R13: only {n} resolved methods of node-parallel sweepers found')
+
+
+@rule('C08', 'C08.R14', 'the MPI flavour of a convergence controller resets what its serial sibling resets: life-cycle callbacks that are overridden call the inherited implementation (shared with C19.R15)', floor=6)
+def r14(ctx, R):
+    from . import c19
+    c19.r15(ctx, R)
+
+
+@rule('C08', 'C08.R15', 'what the serial sweeper refreshes the node-parallel sweeper refreshes too, and what is on the wire is not written into: no per-rank copy of a k-dependent preconditioner entry survives a refresh (shared with C02.R6b), and in-place writes into level data - in particular into uend, the buffer of the pending non-blocking send - only hit objects allocated in the same call (shared with C13.R3)', floor=30)
+def r15(ctx, R):
+    from . import c02, c13
+    c02.r6b(ctx, R)
+    c13.r3(ctx, R)
